@@ -461,6 +461,29 @@ def operand_stratum(chk, srv):
                     bad += 1
                     chk.violation('line-file-name/escape-sequences-not-decoded', 'after %r the file name is %r, cproc reports %r' % (form % spelled, value, got),
                                   files={'input.c': text}, cmd='$CPROC_QBE < input.c 2>&1 >/dev/null | head -n 1')
+    # two directives in a row: the second file name replaces the first whatever their relation (prefix, extension, equal, empty),
+    # and a following #line without a name keeps the second
+    pairs = [('config.h.in', 'config.h'), ('config.h', 'config.h.in'), ('parse.y.c', 'parse.y'), ('gen10.c', 'gen1'), ('a', ''), ('', 'a'), ('same.c', 'same.c'),
+             ('lib/io.c.inc', 'lib/io.c'), ('x', 'xx'), ('xx', 'x'), ('ab.c', 'abc')]
+    for f1, f2 in pairs:
+        for form1 in ('#line 3 "%s"', '# 3 "%s" 1'):
+            for form2 in ('#line 7 "%s"', '# 7 "%s"', '# 7 "%s" 2'):
+                for tail in ('', '#line 20\n'):
+                    text = ('int pre;\n' + form1 % f1 + '\nint mid;\n' + form2 % f2 + '\n' + tail + 'int x = ;\n').encode()
+                    exp = (f2, 20 if tail else 7)
+                    r = srv.compile(text, cpu_s=5)
+                    n += 1
+                    got = _first_diag(r.err) if r.status == 1 else ('status', r.status)
+                    if got != exp:
+                        ws = []
+                        for tool in ('gcc', 'clang'):
+                            w = subprocess.run([tool, '-fsyntax-only', '-xc', '-'], input=text, stdout=subprocess.PIPE, stderr=subprocess.PIPE, timeout=60)
+                            wm = re.search(rb'^(.*?):(\d+):\d+: error: ', w.stderr, re.M)
+                            ws.append((wm.group(1).decode('latin-1'), int(wm.group(2))) if wm else None)
+                        if ws[0] == exp and ws[1] == exp:
+                            bad += 1
+                            chk.violation('line-file-name/second-name-does-not-replace-the-first', 'after %r and then %r%s the location is %s:%d, cproc reports %r' % (
+                                form1 % f1, form2 % f2, ' and #line 20' if tail else '', exp[0], exp[1], got), files={'input.c': text}, cmd='$CPROC_QBE < input.c 2>&1 >/dev/null | head -n 1')
     return n, bad
 
 
